@@ -10,7 +10,8 @@ the target optical depth is reached" possible (DESIGN.md C02); the floating-poin
  T3 skeleton of interact: loop condition, per-axis face distances and snapping use one axis consistently,
     the surplus-path correction lands exactly on the target optical depth, the estimators are updated once
     per visited cell with the corrected length, position / optical depth written once after the loop, and
-    INSIDE is returned iff the target was reached.
+    INSIDE is returned iff the target was reached; for direction[a] == 0 the wall distance of axis a is DBL_MAX / +inf
+    wherever the packet sits in the closed cell (abstract evaluation with +-inf and "may be NaN").
 """
 import sympy as sp
 
@@ -155,6 +156,46 @@ def run(chk, prog):
     # ---- T3 -------------------------------------------------------------------------------------
     fn = u.func("DensitySubGrid::interact")
     chk.analysed(function=fn["full"])
+    # loop-free value helpers of the class (a wall-distance helper extracted by a refactoring) are read in place, as one
+    # conditional expression over their arguments; an array initialised by a list is read as three assignments
+    vhelpers = {}
+    for m_ in u.methods_of("DensitySubGrid"):
+        if m_.get("body") is not None and m_ is not fn and not m_.get("ctor") and len(m_["params"]) <= 8 and \
+                not any(x.get("k") in ("For", "While", "Do") for x in C.walk_stmt(m_["body"])) and \
+                C.value_expr_of(m_) is not None and any(x.get("k") == "If" for x in C.walk_stmt(m_["body"])):
+            vhelpers[m_["full"].split("(")[0]] = m_
+    if vhelpers:
+        fn = dict(fn)
+        fn["body"] = C.inline_value_calls(fn["body"], vhelpers)
+
+    def expand_array_inits(st):
+        if not isinstance(st, dict):
+            return st
+        if st.get("k") == "Block":
+            out = dict(st)
+            ns = []
+            for x in st.get("s", []):
+                x2 = expand_array_inits(x)
+                ns.append(x2)
+                if x2.get("k") == "Decl":
+                    for d_ in x2["d"]:
+                        i_ = C.strip_casts(d_["init"]) if d_.get("init") is not None else None
+                        if i_ is not None and i_.get("k") == "InitList" and len(i_.get("a", [])) == 3 and d_.get("n") == "l":
+                            for k_, c_ in enumerate(i_["a"]):
+                                ns.append({"k": "Bin", "op": "=", "l": c_.get("l", d_.get("l")), "t": "double",
+                                           "a": {"k": "Idx", "l": d_.get("l"), "t": "double",
+                                                 "a": {"k": "Ref", "n": d_["n"], "id": d_["id"], "t": d_.get("t"), "dk": "Var"},
+                                                 "i": {"k": "Int", "v": str(k_), "t": "int"}},
+                                           "b": c_})
+            out["s"] = ns
+            return out
+        out = dict(st)
+        for key in ("th", "el", "body", "sub"):
+            if isinstance(st.get(key), dict):
+                out[key] = expand_array_inits(st[key])
+        return out
+    fn = dict(fn)
+    fn["body"] = expand_array_inits(fn["body"])
     n3 = 0
     loops = [s for s in fn["body"]["s"] if s.get("k") == "While"]
     if len(loops) != 1:
